@@ -24,6 +24,9 @@ from mir_exec import (UNIT, Agg, MapBuf, Opaque, Program, Ref, SBool, SInt, Slic
 from mir_models import Models, SeqIt, as_items, as_str, deref, err, none, ok, some
 
 DOC_KINDS = ["ok", "skipped", "timeout-total", "timeout-index", "hard-error"]
+# early aborts of one document's turn, before its executor is called: a prepend document that does not parse, a work directory that cannot be
+# set up, no executor for the shell
+EARLY = ("prepend-unparsable", "setup-error", "no-executor")
 
 
 class RunModels(Models):
@@ -75,6 +78,12 @@ class RunModels(Models):
             out = []
             for p in as_items(a[2]):
                 p = deref(p)
+                if isinstance(p, Opaque) and p.what == "path:bad":
+                    return err(Opaque("anyhow:other"))           # a document that does not parse
+                if not isinstance(p, Opaque):
+                    from props import c18
+                    if c18.pstr(p).endswith("bad.md"):
+                        return err(Opaque("anyhow:other"))       # the same with real paths (C18)
                 if not isinstance(p, Opaque) or p.what not in c.notes["extra"]:
                     raise Unsupported("find_and_parse(%s) of %r" % (what, p))
                 out.append(c.notes["extra"][p.what](c))
@@ -84,9 +93,24 @@ class RunModels(Models):
         ins(r"environment::TestEnvironment::new|TestEnvironment::new",
             lambda c, m, a: ok(mk_struct("TestEnvironment", shell=Opaque("shell"), work_directory=Agg("EnvironmentDirectory", "Kept", [Opaque("wd")]), tmp_directory=Agg("EnvironmentDirectory", "Kept", [Opaque("tmp")]), namer=Opaque("namer"))),
             defs=r"utils/environment\.rs[^>]*>::new$")
-        ins(r"environment::TestEnvironment::init_test_file|TestEnvironment::init_test_file",
-            lambda c, m, a: ok(Agg("tuple", None, [Agg("EnvironmentDirectory", "Kept", [Opaque("work-dir")]), VecBuf([])])), defs=r"utils/environment\.rs[^>]*>::init_test_file$")
-        ins(r"executorutil::make_executor|make_executor", lambda c, m, a: ok(mk_box(Agg("StubExecutor", None, []))), defs=r"(?:^|::)make_executor$")
+        def turn_kind(c, counter):
+            """kind of the document whose turn it is: the `counter`-th call of this stage belongs to the counter-th document"""
+            k = c.notes.get(counter, 0)
+            c.notes[counter] = k + 1
+            docs = c.notes.get("docs") or []
+            return docs[k].kind if k < len(docs) else None
+
+        def init_test_file(c, m, a):
+            if turn_kind(c, "n_init") == "setup-error":
+                return err(Opaque("anyhow:other"))
+            return ok(Agg("tuple", None, [Agg("EnvironmentDirectory", "Kept", [Opaque("work-dir")]), VecBuf([])]))
+        ins(r"environment::TestEnvironment::init_test_file|TestEnvironment::init_test_file", init_test_file, defs=r"utils/environment\.rs[^>]*>::init_test_file$")
+
+        def make_executor(c, m, a):
+            if turn_kind(c, "n_mkexec") == "no-executor":
+                return err(Opaque("anyhow:other"))
+            return ok(mk_box(Agg("StubExecutor", None, [])))
+        ins(r"executorutil::make_executor|make_executor", make_executor, defs=r"(?:^|::)make_executor$")
         ins(r"scrut::executors::context::ContextBuilder::(?:config|file|temp_directory|work_directory)|<scrut::executors::context::ContextBuilder as Default>::default", opaque("ContextBuilder"))
         ins(r"scrut::executors::context::ContextBuilder::build", lambda c, m, a: ok(Opaque("Context")))
         ins(r"<BTreeMap<&str, &str> as FromIterator<.*>>::from_iter::<.*>", lambda c, m, a: MapBuf([]))
@@ -227,6 +251,7 @@ def doc_variants(t, rich):
             out += [("timeout-total", "".join(pre)), ("timeout-index", "".join(pre))]
     out.append(("hard-error", 0))
     out.append(("aborted", 0))
+    out += [(k, 0) for k in EARLY]
     return out
 
 
@@ -294,7 +319,9 @@ def mk_document(ctx, path, titles, prepend=(), append=()):
 
 def mk_setup(cli_pre, cli_app, docs):
     def setup(ctx):
-        ctx.notes["documents"] = [mk_document(ctx, "doc%d" % doc.d, titles_of(doc, 0, 0)[1], ["path:p"] if doc.pre else [], ["path:q"] if doc.app else [])
+        ctx.notes["documents"] = [mk_document(ctx, "doc%d" % doc.d, titles_of(doc, 0, 0)[1],
+                                              (["path:p"] if doc.pre else []) + (["path:bad"] if doc.kind == "prepend-unparsable" else []),
+                                              ["path:q"] if doc.app else [])
                                   for doc in docs]
         ctx.notes["extra"] = {"path:p": lambda c: mk_document(c, "pre", ["p0"]), "path:q": lambda c: mk_document(c, "app", ["q0"]),
                               "path:P": lambda c: mk_document(c, "cli-pre", ["P0"]), "path:Q": lambda c: mk_document(c, "cli-app", ["Q0"])}
@@ -347,6 +374,9 @@ def post(ctx, args, kind, value):
     want = []            # (title, kind) in order
     aborted = None
     for doc in docs:
+        if doc.kind in EARLY:
+            # scrut could not do its job for this document: the run ends here with an error that is not a validation failure
+            return is_err("anyhow:other") and len(received) == doc.d
         if doc.d >= len(received):
             return False                                  # a document was not executed
         pre, main, app = titles_of(doc, cli_pre, cli_app)
@@ -403,7 +433,7 @@ def post(ctx, args, kind, value):
 
 
 REPRESENTATIVE = lambda t: [("ok", "C" * t), ("ok", "D" + "C" * (t - 1)), ("skipped", t - 1), ("timeout-total", ""), ("timeout-index", "C" * (t - 1)),
-                            ("hard-error", 0)]
+                            ("hard-error", 0), ("prepend-unparsable", 0), ("no-executor", 0)]
 
 
 def run_configs(max_docs, max_total, rich):
@@ -486,8 +516,10 @@ def native_replay(cli_pre, cli_app, docs, received, verdicts, flags=None):
         if b is None:
             return False, False, "exit status Unknown cannot be produced by a command", None
         per_doc.append(b)
-        if doc.kind in ("hard-error", "aborted"):
+        if doc.kind in ("hard-error", "aborted") or doc.kind in EARLY:
             break
+    if any(d.kind in ("setup-error", "no-executor") for d in docs):
+        return False, False, "a work directory that cannot be set up / a missing executor is not realised by the documents of this replay", None
     # test cases of shared (prepend / append) documents pick their behaviour by $TESTFILE; `detached` and `timeout` are static
     files = {}          # file → {title → {docfile → behaviour}}
     for doc, b in zip(docs, per_doc):
@@ -506,8 +538,11 @@ def native_replay(cli_pre, cli_app, docs, received, verdicts, flags=None):
             if fname.startswith("doc"):
                 doc = docs[int(fname[3:-3])]
                 fm = []
-                if doc.pre:
-                    fm.append("prepend: [pre.md]")
+                if doc.pre or doc.kind == "prepend-unparsable":
+                    fm.append("prepend: [%s]" % ", ".join((["pre.md"] if doc.pre else []) + (["bad.md"] if doc.kind == "prepend-unparsable" else [])))
+                    if doc.kind == "prepend-unparsable":
+                        # a document whose front-matter is not a configuration
+                        open(os.path.join(tmp, "bad.md"), "w").write("---\nno_such_key: [\n---\n\n# t\n\n```scrut\n$ echo hello\nhello\n```\n")
                 if doc.app:
                     fm.append("append: [app.md]")
                 if doc.kind == "timeout-total":
@@ -566,7 +601,7 @@ def native_replay(cli_pre, cli_app, docs, received, verdicts, flags=None):
     finally:
         shutil.rmtree(tmp, ignore_errors=True)
     # --- the statement, directly on the observation
-    hard = [d for d in docs if d.kind == "hard-error"]
+    hard = [d for d in docs if d.kind == "hard-error" or d.kind in EARLY]
     if hard:
         if r.returncode != 1:
             return True, True, "a document that cannot be executed must end the run with exit status 1, got %d" % r.returncode, obs
